@@ -2,6 +2,7 @@
   C08 helper lemmas, part 14: the radix tree model from the root — any sequence of inserts.
 -/
 import ClientGoVerif.Proofs.ArtTreeInsert
+import ClientGoVerif.Proofs.ArtNode
 namespace CGV.ArtTree
 open CGV
 
@@ -55,5 +56,30 @@ theorem insertAll_spec (ks : List Bytes) :
   refine ⟨h1, fun x => ?_, keysT_sorted [] _ h1⟩
   rw [show insertAll ks = ks.foldl insert Tree.empty from rfl, h2 x]
   simp [keys, keysT, Tree.empty, optKey, keysK]
+
+/-! ## the children of a tree node as a node container -/
+
+def Kids.toList : Kids → List (UInt8 × Tree)
+  | .nil => []
+  | .cons c t rest => (c, t) :: rest.toList
+
+theorem toList_bytes : (kids : Kids) → kids.toList.map (·.1) = kids.bytes
+  | .nil => rfl
+  | .cons c t rest => by simp [Kids.toList, Kids.bytes, toList_bytes rest]
+
+theorem toList_length : (kids : Kids) → kids.toList.length = kids.length
+  | .nil => rfl
+  | .cons c t rest => by simp [Kids.toList, Kids.length, toList_length rest]
+
+theorem bytes_sorted (q : Bytes) : (kids : Kids) → WFK q kids → kids.bytes.Pairwise (· < ·)
+  | .nil, _ => by simp [Kids.bytes]
+  | .cons c t rest, h => by
+    obtain ⟨_, _, hlt, hr⟩ := h
+    simp only [Kids.bytes]
+    exact List.pairwise_cons.mpr ⟨hlt, bytes_sorted q rest hr⟩
+
+theorem bytes_nodup (q : Bytes) (kids : Kids) (h : WFK q kids) : (kids.toList.map (·.1)).Nodup := by
+  rw [toList_bytes]
+  exact (bytes_sorted q kids h).imp (fun hab e => by subst e; exact absurd hab (UInt8.lt_irrefl _))
 
 end CGV.ArtTree
